@@ -49,6 +49,8 @@ def main():
                 row = {'applies': False, 'detail': o[-300:]}
                 out[i] = row
                 continue
+            row.pop('applies', None)
+            row.pop('detail', None)
             rc, o = sh('/venv/bin/python -m pytest -q -p no:cacheprovider --timeout=900 -n 8', cwd=scratch,
                        env={'PYTHONPATH': scratch})
             row['tests'] = o.strip().splitlines()[-1][:120] if o.strip() else ''
